@@ -127,8 +127,8 @@ theorem keepW_dtick {inp : RunInput} (p : Option Name) {s s' : Sys} {perm : List
 
 theorem keepW_wakeOne (inp : RunInput) (s : Sys) (pst : RS) (p w : Name) (nd : Node) (hw : s.nodes w = some nd) :
     KeepW (some p) s (wakeOne inp s pst p w nd) := by
-  have u := wokenNode_upd inp pst p nd
-  have h1 : KeepW (some p) s (setNode s w (wokenNode inp pst p nd)) :=
+  have u := wokenF_upd inp s pst p nd
+  have h1 : KeepW (some p) s (setNode s w (wokenF inp s pst p nd)) :=
     keepW_setNode hw (fun d a => by
       rcases a with a | a
       · rcases u.wr d a with b | ⟨b, _⟩
